@@ -219,7 +219,7 @@ class UKF(EKF):
         '''
         assert x.size(-1) == P.size(-1) == P.size(-2), 'Invalid shape'
         n, xe = x.size(-1), x.unsqueeze(-2)
-        xr = self.msqrt((n + k) * P)
+        xr = self.msqrt((n + k) * P).mT
         we = torch.full(xe.shape[:-1], k / (n + k), dtype=x.dtype, device=x.device)
         wr = torch.full(xr.shape[:-1], 1 / (2 * (n + k)), dtype=x.dtype, device=x.device)
         p = torch.cat((xe, xe + xr, xe - xr), dim=-2)
